@@ -21,7 +21,6 @@ type piece struct {
 	name       string // savepoint statements
 }
 
-
 // splitSQL splits on ';' outside quotes and comments.
 func splitSQL(sql string) []string {
 	var out []string
